@@ -359,7 +359,7 @@ impl Sim for SimD2 {
         ]
     }
     fn default_runs(&self) -> (u64, u64) {
-        (8_000, 400_000)
+        (1_000_000, 30_000_000)
     }
 
     fn plan(&self, rng: &mut Rng, sub: usize) -> ScenarioD2 {
